@@ -569,7 +569,8 @@ class TransactionResult:
             return {k: tuple(v) if isinstance(v,list) else v for k,v in item.items()}
 
         def packed_list2tuple(item:dict):
-            return {k: list(map(tuple,v)) if k != 'rewards' and isinstance(v[0],list) else v for k,v in item.items()}
+            #a column may hold list cells in some rows only (a key that is absent or holds a scalar in other rows)
+            return {k: [tuple(c) if isinstance(c,list) else c for c in v] if k != 'rewards' and list in map(type,v) else v for k,v in item.items()}
 
         if version == 3:
             raise CobaException("Deprecated transaction format. Please revert to an older version of Coba to read it.")
